@@ -20,6 +20,22 @@ func ioEOF() error { return io.EOF }
 
 func (d *driver) runOtherFamily(fam, in string, sh *shards) bool {
 	switch fam {
+	case "transcript":
+		getConf()
+		forEachLine(in, len(sh.ws), func(shard, k int, line []byte) {
+			d.runTranscriptProgram(sh.at(shard), k, line)
+		})
+		return true
+	case "sqrt":
+		rr := &roundRobin{sh: sh}
+		forEachLine(in, 1, func(shard, k int, line []byte) {
+			var c sqrtCase
+			if err := json.Unmarshal(line, &c); err != nil {
+				panic(err)
+			}
+			d.runSqrtCase(rr, k, &c)
+		})
+		return true
 	case "exec":
 		rr := &roundRobin{sh: sh}
 		forEachLine(in, 1, func(shard, k int, line []byte) {
